@@ -105,3 +105,14 @@ Definition nstep (p : str) (relative : bool) (stack : list range) (r : range) : 
   else r :: stack.
 Definition pq_normalized_segments (p : str) : list range :=
   rev (fold_left (nstep p (negb (is_abs p))) (pq_segments p) []).
+
+(* helpers used by Reference.v *)
+Definition pslice_text (p : str) (x : pslice) : str := match x with InText r => slice p r | Const s => s end.
+Definition pq_parent_or_empty_text (p : str) : option str := Some (pslice_text p (pq_parent_or_empty p)).
+(* self.path().segments().next_back() as text; outer None = panic *)
+Definition pq_file_or_last_raw (p : str) : option (option str) :=
+  match it_next_back p (segments p) with
+  | None => None
+  | Some (Some r, _) => Some (Some (slice p r))
+  | Some (None, _) => Some None
+  end.
